@@ -218,3 +218,39 @@ pub fn check_lax_single(f: &L, loc: &mut Local) {
     loc.outcome(&(a.len(), b.len(), f.quot.len()));
     loc.sample(|| case.clone());
 }
+
+/// imperative edits keep the diagram well-formed: every deletion of every list of <= 2 valid node /
+/// edge identifiers leaves every reference in range and the type readable
+pub fn check_lax_deletions(f: &L, loc: &mut Local) {
+    use open_hypergraphs::lax::{EdgeId, NodeId};
+    let n = f.open.nodes.len();
+    let m = f.open.edges.len();
+    for ids in ohmc_core::uni::lists(n, 2) {
+        loc.trans(1);
+        let mut o = build_lax(f);
+        let r = catch(|| o.delete_nodes(&ids.iter().map(|&i| NodeId(i)).collect::<Vec<_>>()));
+        // the type afterwards: the labels of the interface entries that survive
+        let keep = |ifc: &Vec<usize>| -> Vec<u8> { ifc.iter().filter(|v| !ids.contains(v)).map(|&v| f.open.nodes[v]).collect() };
+        match r.map(|_| decode_lax(&o)) {
+            Ok(Ok(d)) => {
+                if d.open.source_type() != keep(&f.open.s) || d.open.target_type() != keep(&f.open.t) {
+                    loc.violation("delete_nodes:wrong-type-afterwards", json!({"f": f, "ids": ids, "got": d}));
+                }
+            }
+            other => loc.violation("delete_nodes:leaves-malformed-diagram", json!({"f": f, "ids": ids, "got": format!("{:?}", other)})),
+        }
+    }
+    for ids in ohmc_core::uni::lists(m, 2) {
+        loc.trans(1);
+        let mut o = build_lax(f);
+        let r = catch(|| o.delete_edges(&ids.iter().map(|&i| EdgeId(i)).collect::<Vec<_>>()));
+        match r.map(|_| decode_lax(&o)) {
+            Ok(Ok(_)) => {}
+            other => loc.violation("delete_edges:leaves-malformed-diagram", json!({"f": f, "ids": ids, "got": format!("{:?}", other)})),
+        }
+    }
+    if n >= 2 && !f.open.s.is_empty() {
+        loc.nontrivial();
+    }
+    loc.outcome(&(n, m, f.open.s.len(), f.open.t.len()));
+}
